@@ -1,7 +1,7 @@
 (* Props/LINeutral.v — property theorem only.  LENGTH INDEPENDENCE of implicit::resolve_neutral
    (identify_bracket_pairs, N0, N1/N2): the stage run on a text in any encoding is the per-code-unit
    expansion of the stage run on its character list in the ghost encoding U32. *)
-From BidiVerif Require Import Base ConstsGen TablesGen ModelText ModelResolve ModelLine Spec Obs Judge
+From BidiVerif Require Import Base ConstsGen TablesGen ModelText RefDs ModelResolve ModelLine Spec Obs Judge
      Stmts Stmts2 Stmts3.
 From BidiVerif.Proofs Require Import LINeutral.
 
@@ -29,15 +29,15 @@ Example li_neutral_hypotheses_satisfiable :
   (valid_text U8 text /\ length pc = length chars /\ length oc = length chars /\
    length lv = length chars /\ seq_in (length chars) sq) /\
   lens = [2; 3; 3; 1; 3; 2; 1; 2] /\
-  oc = map hardcoded_class text /\
-  resolve_neutral U32 hardcoded_ds cps sq lv oc pc = Ok [R; R; R; L; R; R; R; R] /\
-  identify_bracket_pairs U8 hardcoded_ds text (useq lens sq) (expand lens oc) (expand lens pc)
+  oc = map ucd16_class text /\
+  resolve_neutral U32 ucd16_ds cps sq lv oc pc = Ok [R; R; R; L; R; R; R; R] /\
+  identify_bracket_pairs U8 ucd16_ds text (useq lens sq) (expand lens oc) (expand lens pc)
     = Ok [{| bp_start := 5; bp_end := 9; bp_start_run := 0; bp_end_run := 1 |}] /\
-  resolve_neutral U8 hardcoded_ds text (useq lens sq) (expand lens lv) (expand lens oc) (expand lens pc)
+  resolve_neutral U8 ucd16_ds text (useq lens sq) (expand lens lv) (expand lens oc) (expand lens pc)
     = Ok [R; R; R; R; R; R; R; R; L; R; R; R; R; R; R; R; R] /\
   (valid_text U16 text16 /\ lens16 = [1; 1; 1; 2; 1; 1; 1; 1] /\
-   resolve_neutral U32 hardcoded_ds cps16 sq lv oc pc = Ok [R; R; R; L; R; R; R; R] /\
-   resolve_neutral U16 hardcoded_ds text16 (useq lens16 sq) (expand lens16 lv) (expand lens16 oc)
+   resolve_neutral U32 ucd16_ds cps16 sq lv oc pc = Ok [R; R; R; L; R; R; R; R] /\
+   resolve_neutral U16 ucd16_ds text16 (useq lens16 sq) (expand lens16 lv) (expand lens16 oc)
                    (expand lens16 pc)
      = Ok [R; R; R; L; L; R; R; R; R]).
 Proof.
